@@ -822,7 +822,7 @@ class HelpFamily(SessionFamily):
         d = ctx.specdir('mc')
         cat = os.path.join(ROOT, 'catalog', 'argparse.ndjson')
         ctx.vh('decls', '-trees', cat, '-decls', os.path.join(d, 'catalog_decls.ndjson'))
-        decls = [15, 16, 9, 3, 12] if th else [15, 16]
+        decls = [15, 16, 19, 9, 3, 12] if th else [15, 16, 19]
         mw = 300 if th else 120
         cfg = ('SPECIFICATION MSpec\nCONSTANTS\n  Defects = {}\n  DeclIds = {%s}\n  MaxWidth = %d\n  Emit = TRUE\nINVARIANTS Lay MEmit\nCHECK_DEADLOCK FALSE\n'
                % (', '.join(map(str, decls)), mw))
